@@ -10,6 +10,9 @@ CHECKS = {
     "C08": ("structural oracle over real patch plans on exhaustively enumerated + edit-script-derived layout pairs (tagged storage)",
             "Runs the real build_state_storage_patch_plan/apply_state_storage_patch_plan on every ordered pair of layouts up to a node bound and on edit-script pairs, and checks every clause of the property on the returned plan and on uniquely tagged migrated storage. Exhaustive within the bound, sampled beyond it; nothing is modelled.",
             "Trusts the harness' own prefix-sum layout walk and tree-inclusion checker; u64 sizes stand in for StateType.", "DESIGN.md §3 C08"),
+    "C13": ("structural oracle over the values returned by the real tokenize / preparse / parse_cst on exhaustively enumerated lexeme strings, the corpus with all its prefixes/suffixes and token-level mutants, and random Unicode text",
+            "Runs the real parser::tokenize, parser::preparse and parser::parse_cst on every string over a ~100-lexeme table up to length 3 (quick) / 4 (thorough) with every separator choice, on every string of parser-structural tokens up to length 5 / 6, on every corpus file with its char-boundary prefixes and suffixes and token-level mutants, and on random Unicode-laden text; for each text it checks on the returned values that the tokens tile the input (contiguous, ordered, char boundaries, final zero-width Eof, concatenation == input), that the GreenNode token leaves are exactly the non-trivia tokens once and in order, and that every trivia token sits in exactly one trivia-map entry of the adjacent syntax token. Exhaustive within the stated bounds, sampled beyond; nothing is modelled.",
+            "Trusts the oracle's own trivia classification (4 kinds) and leaf walk; texts on which the code under test panics are counted as undecided (C04's subject). One known finding (file-leading trivia up to a line break is attached to no token) is matched by exact signature.", "DESIGN.md §3 C13"),
 }
 PENDING = {}
 
